@@ -78,9 +78,13 @@ func judge(class string, key []byte, o *fw.Obs) {
 
 	var got string
 	var err error
-	srcBuf := append([]byte(nil), data...)
+	var sp fw.SpareSet
+	srcBuf := sp.Of("data", data, 64) // a window into a larger buffer: padding appended to it would write into the caller's memory
 	if !o.Try("bech32.Encode", func() {
 		got, err = bech32.Encode(hrp, srcBuf)
+		if !sp.Check(o) {
+			return
+		}
 		// the caller reuses its buffer and encodes something else before it looks at the first result
 		for i := range srcBuf {
 			srcBuf[i] ^= 0xa5
